@@ -57,3 +57,183 @@ pub fn c10_narrowing_wit() {
     std::mem::forget(r);
     assert!(false, "WITNESS");
 }
+
+
+// ---------------------------------------------------------------------------------
+// Assume-guarantee decomposition (DESIGN 4/C10):
+//   G1  to_number_value == spec for EVERY f64                         (c10_narrowing)
+//   G2  js_op::to_number / parse_float == reference conversion, per operand shape   (c10_conv_*)
+//   G3  each operator == to_number_value( conv(a) (op) conv(b) ), with the callee conversions replaced by
+//       their reference (Kani stubs) and to_number_value by a recorder         (generated c10_<op>_* harnesses)
+// Under native replay no stub is active and the same harness asserts the end-to-end statement.
+// ---------------------------------------------------------------------------------
+
+static mut TNV_ARG: f64 = 0.0;
+static mut TNV_CALLS: u32 = 0;
+static mut TNV_OK: bool = false;
+static mut TNV_TOKEN: i64 = 0;
+
+/// recorder standing in for `to_number_value` (G3): remembers its argument, returns a symbolic token / error
+pub fn tnv_record(x: f64) -> Result<Value, crate::error::Error> {
+    unsafe {
+        TNV_ARG = x;
+        TNV_CALLS += 1;
+        if TNV_OK {
+            Ok(Value::Number(Number::from(TNV_TOKEN)))
+        } else {
+            Err(crate::error::Error::UnexpectedError(String::new()))
+        }
+    }
+}
+pub fn tnv_setup() {
+    unsafe {
+        TNV_OK = in_bool::<90>();
+        TNV_TOKEN = in_i64::<91>();
+        TNV_CALLS = 0;
+    }
+}
+
+/// Number()-style conversion of the operand shapes used by the generated harnesses (reference, from the statement)
+pub fn ref_to_number(v: &Value) -> Option<f64> {
+    match v {
+        Value::Null => Some(0.0),
+        Value::Bool(b) => Some(if *b { 1.0 } else { 0.0 }),
+        Value::Number(n) => n.as_f64(),
+        Value::Object(_) => None,
+        Value::Array(a) if a.len() == 0 => Some(0.0),
+        Value::String(s) if s.len() == 0 => Some(0.0),
+        _ => {
+            assert!(false, "operand outside the harness domain");
+            None
+        }
+    }
+}
+/// parseFloat()-style conversion of the same shapes: only numbers are numeric ("null", "true", "" and "[object Object]" are NaN)
+pub fn ref_parse_float(v: &Value) -> Option<f64> {
+    match v {
+        Value::Number(n) => n.as_f64(),
+        Value::Null | Value::Bool(_) | Value::Object(_) => None,
+        Value::Array(a) if a.len() == 0 => None,
+        Value::String(s) if s.len() == 0 => None,
+        _ => {
+            assert!(false, "operand outside the harness domain");
+            None
+        }
+    }
+}
+
+/// exp = Some(x): the operator must return to_number_value(x);  None: must be an error (non-numeric operand)
+#[cfg(kani)]
+pub fn arith_check(r: &Result<Value, crate::error::Error>, exp: Option<f64>) {
+    unsafe {
+        match exp {
+            Some(x) => {
+                assert!(TNV_CALLS == 1, "C10: result not narrowed exactly once");
+                assert!(
+                    TNV_ARG.to_bits() == x.to_bits() || (TNV_ARG.is_nan() && x.is_nan()),
+                    "C10: operator computed a different double than the exact IEEE result"
+                );
+                match r {
+                    Ok(Value::Number(n)) => assert!(TNV_OK && n.as_i64() == Some(TNV_TOKEN), "C10: narrowed result altered"),
+                    Ok(_) => assert!(false, "C10: narrowed result altered"),
+                    Err(_) => assert!(!TNV_OK, "C10: narrowed result replaced by an error"),
+                }
+            }
+            None => {
+                assert!(r.is_err(), "C10: a value was returned for a non-numeric operand");
+            }
+        }
+    }
+}
+#[cfg(verif_replay)]
+pub fn arith_check(r: &Result<Value, crate::error::Error>, exp: Option<f64>) {
+    match exp {
+        Some(x) => assert_exact(r, x),
+        None => assert!(r.is_err(), "C10: a value was returned for a non-numeric operand"),
+    }
+}
+
+pub fn table_op(sym: &str, items: &Vec<&Value>) -> Result<Value, crate::error::Error> {
+    OPERATOR_MAP.get(sym).unwrap().execute(items)
+}
+
+// ---------------------------------------------------------------------------------
+// G2: the conversions, real code against the reference, per operand shape
+// ---------------------------------------------------------------------------------
+
+//@ harness: c10_conv_number_scalar tier=quick timeout=300 kind=main
+//@ encodes: js_op::to_number, js_op::to_primitive, js_op::to_primitive_number
+//@ bound: operand Null | Bool(any) | Number(i64|u64|finite f64, every payload): Number()-style value; to_string opaque, str_to_number asserted unreachable (R5)
+#[cfg_attr(kani, kani::proof)]
+#[cfg_attr(kani, kani::unwind(4))]
+#[cfg_attr(kani, kani::stub(std::fmt::format, stub_format))]
+#[cfg_attr(kani, kani::stub(crate::js_op::to_string, to_string_opaque))]
+#[cfg_attr(kani, kani::stub(crate::js_op::str_to_number, s2n_unreachable))]
+#[cfg_attr(verif_replay, test)]
+pub fn c10_conv_number_scalar() {
+    let k = in_below::<1>(3);
+    let v = if k == 0 { Value::Null } else if k == 1 { Value::Bool(in_bool::<2>()) } else { Value::Number(in_number::<3, 4>()) };
+    let got = js_op::to_number(&v);
+    vshow!("to_number({:?}) = {:?}", v, got);
+    let exp = ref_to_number(&v);
+    assert!(exp.is_some());
+    assert!(got.map(f64::to_bits) == exp.map(f64::to_bits), "C10: Number()-style conversion of a scalar is wrong");
+    std::mem::forget(v);
+}
+
+//@ harness: c10_conv_float_number tier=quick timeout=300 kind=main
+//@ encodes: js_op::parse_float
+//@ bound: operand Number(i64|u64|finite f64, every payload): parseFloat-style value is the number itself
+#[cfg_attr(kani, kani::proof)]
+#[cfg_attr(kani, kani::unwind(4))]
+#[cfg_attr(kani, kani::stub(std::fmt::format, stub_format))]
+#[cfg_attr(verif_replay, test)]
+pub fn c10_conv_float_number() {
+    let v = Value::Number(in_number::<3, 4>());
+    let got = js_op::parse_float(&v);
+    vshow!("parse_float({:?}) = {:?}", v, got);
+    let exp = ref_parse_float(&v);
+    assert!(got.map(f64::to_bits) == exp.map(f64::to_bits), "C10: parseFloat-style conversion of a number is wrong");
+    std::mem::forget(v);
+}
+
+//@ harness: c10_conv_number_emptystr tier=quick timeout=600 kind=main
+//@ encodes: js_op::to_number, js_op::to_string, js_op::str_to_number
+//@ bound: operand "": Number()-style value 0 (real to_string / str_to_number, no stub)
+#[cfg_attr(kani, kani::proof)]
+#[cfg_attr(kani, kani::unwind(4))]
+#[cfg_attr(kani, kani::stub(std::fmt::format, stub_format))]
+#[cfg_attr(verif_replay, test)]
+pub fn c10_conv_number_emptystr() {
+    let v = Value::String(String::new());
+    let got = js_op::to_number(&v);
+    assert!(got.map(f64::to_bits) == Some(0.0f64.to_bits()), "C10: \"\" must convert to 0");
+    std::mem::forget(v);
+}
+
+//@ harness: c10_conv_number_emptyarr tier=thorough timeout=1500 kind=main mem=16
+//@ encodes: js_op::to_number, js_op::to_string, js_op::str_to_number
+//@ bound: operand []: Number()-style value 0 (real to_string / str_to_number, no stub)
+#[cfg_attr(kani, kani::proof)]
+#[cfg_attr(kani, kani::unwind(4))]
+#[cfg_attr(kani, kani::stub(std::fmt::format, stub_format))]
+#[cfg_attr(verif_replay, test)]
+pub fn c10_conv_number_emptyarr() {
+    let v = Value::Array(Vec::new());
+    let got = js_op::to_number(&v);
+    assert!(got.map(f64::to_bits) == Some(0.0f64.to_bits()), "C10: [] must convert to 0");
+    std::mem::forget(v);
+}
+
+//@ harness: c10_conv_number_object tier=thorough timeout=1200 kind=main mem=12
+//@ encodes: js_op::to_number, js_op::to_string, js_op::str_to_number, core dec2flt on the constant "[object Object]"
+//@ bound: operand {}: non-numeric (None)
+#[cfg_attr(kani, kani::proof)]
+#[cfg_attr(kani, kani::unwind(20))]
+#[cfg_attr(kani, kani::stub(std::fmt::format, stub_format))]
+#[cfg_attr(verif_replay, test)]
+pub fn c10_conv_number_object() {
+    let v = Value::Object(serde_json::Map::new());
+    let got = js_op::to_number(&v);
+    assert!(got.is_none(), "C10: an object must be non-numeric");
+}
